@@ -353,11 +353,28 @@ def shortest(f, bits):
     e10 = ex - len(fp)
     return digs, e10
 
-def gen_renderings(rng, f, nsig):
+def tie_neighbour_bits(rng, f):
+    """floats adjacent to a rounding boundary that is itself a SHORT decimal w x 10^q (|q| <= 30): for the
+    neighbour with the even significand that decimal lies in its (closed) rounding interval and is often its
+    shortest rendering - the only renderings whose parse depends on the ties-to-even rule"""
+    out = []
+    for line, fam in gen_mp_ties(rng, f):
+        if fam != "N-tie":
+            continue
+        t = line.split()
+        w, q = int(t[2]), int(t[3])
+        if w >= 10 ** 19:
+            continue
+        b = py_rne(f, w * 10 ** max(q, 0), 10 ** max(-q, 0))
+        if 0 < b < inf_bits(f) - 1:
+            out += [b, b + 1, b - 1]
+    return out
+
+def gen_renderings(rng, f, nsig, extra_bits=()):
     out = []
     F = FMT[f]
     nd = 17 if f == "f64" else 9
-    for bits in float_strata(rng, f, nsig):
+    for bits in list(float_strata(rng, f, nsig)) + list(extra_bits):
         if bits == 0:
             continue
         forms = []
@@ -547,6 +564,39 @@ def gen_near_tie_posexp(rng, f, count):
                 out.append((pf(f, ds[:c], ds[c:], E + len(ds) - c), fam))
     return out[:count]
 
+def gen_sparse_posexp(rng, f, count):
+    """D x 10^E (E >= 135) with D = A 2^(64k) + c: a run of k all-zero limbs below the top of the big
+    integer (`long_mul` skips zero limbs of its multiplier and then adds the next partial product beyond
+    the end of the accumulator), and A chosen so that the value is within 1/A of a midpoint of two floats
+    (so that the extended-precision stage declines and the big-integer stage runs at all)."""
+    out = []
+    F = FMT[f]
+    mb = F["mbits"]
+    emax = 2 ** (F["ebits"] - 1) - 1
+    if emax < 600:
+        return out
+    tries = 0
+    while len(out) < count and tries < 50 * count + 100:
+        tries += 1
+        E = rng.choice([135, 136, 137, 140, 150])
+        k = rng.choice([4, 5, 5, 6, 6, 7])
+        room = (emax - 2) - (10 ** E).bit_length() - 64 * k
+        if room < 70:
+            continue
+        abits = rng.randint(68, min(room, 200))
+        total = abits + 64 * k + (10 ** E).bit_length()
+        p = total - (mb + 2)
+        m = (1 << mb) | rng.getrandbits(mb)
+        M = (2 * m + 1) << p
+        A0 = M // (10 ** E << (64 * k))
+        for A, fam in ((A0 + 1, "T-sparse-above"), (A0, "T-sparse-below")):
+            c = rng.choice([1, 1, 0, rng.getrandbits(64), rng.getrandbits(7)])
+            D = (A << (64 * k)) + c
+            if (D * 10 ** E).bit_length() > emax:
+                continue
+            out.append((pf(f, str(D), "", E), fam))
+    return out[:count]
+
 def gen_mp_ties(rng, f):
     """exact ties w = (2m+1) * 2^j * 5^-q inside and just outside the tie window"""
     out = []
@@ -566,7 +616,8 @@ def gen_mp_ties(rng, f):
                     continue
                 # w*10^q = base * 2^(q+j) -> w = base/5^q * 2^j
                 w0 = base // p5
-                for j in (0, 1, 5, 20):
+                jmax = 64 - w0.bit_length()
+                for j in sorted(set([0, 1, 5, 20] + [x for x in (jmax, jmax - 1, jmax - 2, jmax - 4, jmax - 8, jmax - 13) if x >= 0])):
                     w = w0 << j
                     if 0 < w < 2 ** 64:
                         out.append(("mp %s %d %d 0" % (f, w, q), "N-tie"))
@@ -575,7 +626,8 @@ def gen_mp_ties(rng, f):
                             out.append(("mp %s %d %d 0" % (f, w - 1, q), "N-tie-1"))
             else:
                 w0 = odd * 5 ** (-q)
-                for j in (0, 1, 3):
+                jmax = 64 - w0.bit_length()
+                for j in sorted(set([0, 1, 3] + [x for x in (jmax, jmax - 1) if x >= 0])):
                     w = w0 << j
                     if 0 < w < 2 ** 64:
                         out.append(("mp %s %d %d 0" % (f, w, q), "N-tie"))
@@ -808,6 +860,26 @@ def gen_bigint(rng, count, W=64):
         else:
             line = "bg scalar_mul %d %d %d" % (rand_limb(rng, W), rand_limb(rng, W), rand_limb(rng, W))
         out.append((line, "L-" + op))
+    # the word-level top-bit helpers (the 32-bit-limb ones are compiled on every target)
+    def word(bits):
+        r = rng.random()
+        if r < 0.25:
+            return rng.choice([1, 2 ** (bits - 1), 2 ** bits - 1, 2 ** bits - 2, 3])
+        return rng.getrandbits(rng.randint(1, bits)) | 1
+    for _ in range(max(10, count // 40)):
+        k = rng.choice([1, 2, 3, 4, 5])
+        low = lambda bits: rng.choice([0, 0, 1, 2 ** (bits - 1), 2 ** bits - 1, rng.getrandbits(bits)])
+        if k == 1:
+            line = "bg u64_to_hi64_1 %d" % word(64)
+        elif k == 2:
+            line = "bg u64_to_hi64_2 %d %d" % (word(64), low(64))
+        elif k == 3:
+            line = "bg u32_to_hi64_1 %d" % word(32)
+        elif k == 4:
+            line = "bg u32_to_hi64_2 %d %d" % (word(32), low(32))
+        else:
+            line = "bg u32_to_hi64_3 %d %d %d" % (word(32), low(32), low(32))
+        out.append((line, "L-" + line.split()[1]))
     return out
 
 def gen_bigint_huge(rng, count, W=64):
